@@ -187,7 +187,8 @@ def handle : Handler
       match Knn.fitCore e vals k (fun _ ds k => smallestK ds k) with
       | none => some "err ValueError"
       | some o => some s!"ok {showList o.labels} {showMat o.probs}") "bad-args"
-  | "c13.spec_knn", [emb, values, k, eps, labels, probs] => some <| Option.getD (do
+  | "c13.spec_knn", [emb, values, k, eps, labels, probs, cnts] => some <| Option.getD (do
+      let cnts ← natListList? cnts
       let e ← ratListList? emb
       let vals ← intList? values
       let k ← k.toNat?
@@ -202,7 +203,7 @@ def handle : Handler
         let row := getRow pr i
         let vi := vals.getD i (-1)
         if 0 ≤ vi then (List.range row.length).all fun q => row.getD q 0 == (if (q : Int) == vi then 1 else 0)
-        else Spec.knnRowOK (Knn.distances e train (getRow e i)) trainLabels kk eps row
+        else Spec.knnRowOK (Knn.distances e train (getRow e i)) trainLabels kk eps row (cnts.getD i [])
       let argOK := (List.range nn).all fun i =>
         let row := getRow pr i
         let li := l.getD i (-1)
